@@ -1,0 +1,54 @@
+//go:build verif
+
+package consensus
+
+import (
+	"github.com/nspcc-dev/dbft"
+	npayload "github.com/nspcc-dev/neo-go/pkg/network/payload"
+	"github.com/nspcc-dev/neo-go/pkg/util"
+)
+
+// This file is a test seam for the external verification harness (/verif).
+// It is compiled only with `-tags verif` and adds no behaviour to normal builds.
+
+// Restore decodes a RecoveryMessage payload exactly as the service does on
+// receipt (OnPayload's decoding and validation, eventLoop's preparation hash
+// completion) and returns the payloads the recovery glue rebuilds from it
+// (GetPrepareRequest, GetPrepareResponses, GetCommits, GetChangeViews), each
+// with its data encoded, WITHOUT handing anything to dBFT. ok is false when
+// the payload is not an acceptable RecoveryMessage.
+func (d *VerifDriver) Restore(ep *npayload.Extensible) (restored []*npayload.Extensible, view byte, ok bool) {
+	p := d.s.payloadFromExtensible(ep)
+	if err := p.decodeData(); err != nil {
+		return nil, 0, false
+	}
+	if !d.s.validatePayload(p) {
+		return nil, 0, false
+	}
+	rec, isRec := p.payload.(*recoveryMessage)
+	if !isRec {
+		return nil, 0, false
+	}
+	vals := d.s.dbft.Validators
+	primary := uint16(d.s.dbft.GetPrimaryIndex(p.ViewNumber()))
+	if rec.preparationHash == nil {
+		if req := rec.GetPrepareRequest(p, vals, primary); req != nil {
+			h := req.Hash()
+			rec.preparationHash = &h
+		}
+	}
+	var all []dbft.ConsensusPayload[util.Uint256]
+	if req := rec.GetPrepareRequest(p, vals, primary); req != nil {
+		all = append(all, req)
+	}
+	all = append(all, rec.GetPrepareResponses(p, vals)...)
+	all = append(all, rec.GetCommits(p, vals)...)
+	all = append(all, rec.GetChangeViews(p, vals)...)
+	for _, q := range all {
+		pl := q.(*Payload)
+		pl.encodeData()
+		e := pl.Extensible
+		restored = append(restored, &e)
+	}
+	return restored, p.ViewNumber(), true
+}
